@@ -39,6 +39,7 @@ ROUTES = {
     'Ay': 'route 10.0.0.0/24 next-hop 1.1.1.1 med 20',
     'Az': 'route 10.0.0.0/24 next-hop 2.2.2.2 med 10',
     'Bx': 'route 10.0.1.0/24 next-hop 1.1.1.1 med 10',
+    'By': 'route 10.0.1.0/24 next-hop 1.1.1.1 med 20',
     'Dx': 'route 2001:db8::/32 next-hop 2001:db8::1 med 10',
     'Dy': 'route 2001:db8::/32 next-hop 2001:db8::1 med 20',
 }
@@ -53,6 +54,7 @@ ABSTRACT = {
     'Ay': (('A',), '1.1.1.1', 20),
     'Az': (('A',), '2.2.2.2', 10),
     'Bx': (('B',), '1.1.1.1', 10),
+    'By': (('B',), '1.1.1.1', 20),
     'Dx': (('D',), '2001:db8::1', 10),
     'Dy': (('D',), '2001:db8::1', 20),
 }
@@ -70,7 +72,7 @@ CONF_AP = ['route 10.0.3.0/24 path-information 0.0.0.1 next-hop 1.1.1.1 med 10',
 
 VARIANTS = {
     # name: (group-updates, add-path, op alphabet)
-    'grouped': dict(group='group-updates true;', addpath='', ops=['Ax', 'Ay', 'Az', 'Bx', '-A', '-B', 'wd+', 'wd-', 'flush', 'clear', 'pull']),
+    'grouped': dict(group='group-updates true;', addpath='', ops=['Ax', 'Ay', 'Az', 'Bx', 'By', '-A', '-B', 'wd+', 'wd-', 'flush', 'clear', 'pull']),
     'ungrouped': dict(group='group-updates false;', addpath='', ops=['Ax', 'Ay', 'Az', 'Bx', '-A', '-B', 'wd+', 'wd-', 'flush', 'clear', 'pull']),
     'v6': dict(group='group-updates true;', addpath='', ops=['Ax', 'Ay', 'Dx', 'Dy', '-A', '-D', 'eflush', 'clear', 'pull']),
     'addpath': dict(group='group-updates true;', addpath='add-path send/receive;', ops=['Ax', 'Ay', 'Az', 'Bx', '-A', '-A2', 'flush', 'clear', 'pull']),
@@ -288,7 +290,8 @@ class State:
         naf = tuple((a, tuple((f, tuple(d.keys())) for f, d in per.items() if d)) for a, per in rib._new_attr_af_nlri.items())
         naf = tuple(x for x in naf if x[1])
         pw = tuple((f, tuple(d.keys())) for f, d in rib._pending_withdraws.items() if d)
-        ref = (tuple(sorted(rib._refresh_families)), tuple((r.index(), r.attributes.index()) for r in rib._refresh_routes))
+        ref = (tuple(sorted(rib._refresh_families)), tuple((r.index(), r.attributes.index()) for r in rib._refresh_routes),
+               tuple((r.index(), r.attributes.index(), str(r.nexthop)) for r in getattr(rib, '_superseded', ())))
         wdg = tuple(sorted((n, tuple(sorted((s, tuple(sorted(d.keys()))) for s, d in per.items())))
                            for n, per in rib._watchdog.items()))
         return (seen, new, naf, pw, ref, wdg, self.gen is not None, self.include_withdraw,
